@@ -278,7 +278,8 @@ def r3_source_tree(res, facts, roots, cut, reach):
 
 
 def r4_wrapper(res, facts):
-    r = res.rule('C07-R4', 'the Xerces wrapper document shared through XalanTransformer is built eagerly (its lazily-filled mutable members are never written by readers)', floor=2)
+    r = res.rule('C07-R4', 'the Xerces wrapper document shared through XalanTransformer is built eagerly (its lazily-filled mutable members are never written by readers); its const members write state only at '
+                 'reviewed sites; its string pool is the locked one in thread-safe mode', floor=25)
     # XercesDocumentWrapper's mutable members
     k = facts.K.get(NS + 'XercesDocumentWrapper')
     if not k:
@@ -336,7 +337,60 @@ def r4_wrapper(res, facts):
             if short(fr.get('clsq', '')).startswith(('XercesDOMParsedSource', 'XercesDOMWrapperParsedSource', 'XalanTransformer', 'XalanDefaultParsedSource')):
                 r.violation('setBuildWrapperNodes called in %s' % short(facts.name[c['from']]), 'a transformer-level parsed source changes the wrapper-building mode of its liaison', c['loc'].replace('/repo/', ''))
     r.note('XercesDocumentWrapper mutable members: %s' % muts)
+    # (b) what the read-only interface (const members) of the shared wrapper document may write
+    for w in facts.W:
+        fld = short(w['field'])
+        if not fld.startswith('XercesDocumentWrapper::') or fld.count('::') != 1:
+            continue
+        fn = facts.F.get(w['from'], {})
+        if not fn.get('const'):
+            continue
+        fname = short(fn.get('name', '?'))
+        key = (fname.split('::')[-1], fld.split('::')[-1])
+        site = 'const %s writes %s (%s)' % (fname, fld.split('::')[-1], w['kind'])
+        why = WRAPPER_CONST_WRITES.get(key)
+        if why and (w['kind'].startswith('call:') or key in WRAPPER_CONST_ASSIGN_OK):
+            r.ok(site, why)
+        else:
+            r.violation('const %s writes %s' % (fname, fld.split('::')[-1]), 'a reader-side (const) member of the wrapper document shared between threads changes %s (%s) outside the reviewed lazy-mapping '
+                        'and locked-pool sites: concurrent transformations race on it' % (fld.split('::')[-1], w['kind']), w['loc'].replace('/repo/', ''))
+    # the pool behind getPooledString is the locked one in thread-safe mode, and its accessors take the lock first
+    ctor_ok = False
+    for a in facts.asts('XercesDocumentWrapper::XercesDocumentWrapper', must=False):
+        for i in a.get('inits', []):
+            if i.get('field') == 'm_stringPool':
+                txt = pp(i['e'])
+                conds = [x for x in walk(i['e']) if x.get('k') == 'Cond']
+                for c in conds:
+                    if 'threadSafe' in pp(c['c']) and 'XercesLiaisonXalanDOMStringPool' in pp(c['t']) + ' '.join(cc.get('fn') or '' for cc in calls(c['t'])):
+                        ctor_ok = True
+    if ctor_ok:
+        r.ok('XercesDocumentWrapper constructor: thread-safe mode selects XercesLiaisonXalanDOMStringPool')
+    else:
+        r.violation('XercesDocumentWrapper constructor: string pool', 'thread-safe mode no longer selects the locked string pool', k['loc'].replace('/repo/', ''))
+    for a in facts.asts('XercesLiaisonXalanDOMStringPool::get', must=False) + facts.asts('XercesLiaisonXalanDOMStringPool::clear', must=False):
+        stmts = a['body'].get('c', [])
+        first = stmts[0] if stmts else None
+        site = 'XercesLiaisonXalanDOMStringPool::%s(%d parameters)' % (a['name'].split('::')[-1], len(a['params']))
+        if first is not None and first.get('k') == 'Decl' and any('MutexLock' in (v.get('ty') or '') and 'm_mutex' in pp(v.get('init')) for v in first.get('vars', [])):
+            r.ok(site, 'takes the lock before touching the pool')
+        else:
+            r.violation(site, 'the pool is accessed before / without taking m_mutex', common.file_line(a))
     return r
+
+
+WRAPPER_CONST_WRITES = {
+    ('createNavigator', 'm_navigatorAllocator'): 'lazy mapping: reached only while m_mappingMode, which buildWrapper = true (first part of this rule) never leaves on for a shared document',
+    ('createWrapperNode', 'm_doctype'): 'lazy mapping (see createNavigator)',
+    ('createWrapperNode', 'm_nodeMap'): 'lazy mapping (see createNavigator)',
+    ('createWrapperNode', 'm_nodes'): 'lazy mapping (see createNavigator)',
+    ('createWrapperNode', 'm_elementAllocator'): 'lazy mapping (see createNavigator)',
+    ('createWrapperNode', 'm_textAllocator'): 'lazy mapping (see createNavigator)',
+    ('createWrapperNode', 'm_attributeAllocator'): 'lazy mapping (see createNavigator)',
+    ('getPooledString', 'm_stringPool'): 'goes through the pool object, which is the mutex-protected XercesLiaisonXalanDOMStringPool in thread-safe mode (checked below)',
+    ('getMemoryManager', 'm_nodeMap'): 'asks a member for its memory manager: no state changes',
+}
+WRAPPER_CONST_ASSIGN_OK = {('createWrapperNode', 'm_doctype')}
 
 
 def r5_process_wide(res, facts, reach):
